@@ -1936,6 +1936,36 @@ def run_check(ctx, owners, n_valid, n_mut, families, rule, trusted, prop_files=(
         except BaseException as e:  # noqa
             ctx.notes.append("cell search failed: %r" % (e,))
         if not found:
+            # ... or a filter clause `$_item.<attribute> <operator> <literal>` (6 attribute types x 14 operators x 9
+            # literal shapes, both operand orders) whose verdict differs from the specification's comparison rules
+            try:
+                import impl as _impl
+                base = next(c for c in all_cells() if c[3] == "OBJECT_LIST" and c[4] is not None and c[4][0] == "filter" and cell_expected(c))
+                fcells, docs = [], []
+                for k in range(6):
+                    for op in OPS:
+                        for shape in ("SNull", "SStr", "SInt", "SFloat", "SBool", "SEmpty", "SStrs", "SNums", "SBools"):
+                            for flip in (False, True):
+                                l, r = ("item", False, [k]), ("lit", shape, 1)
+                                tl, tr = S.FIELD_TYPES[k], SHAPE_TY[shape]
+                                if flip:
+                                    l, r, tl, tr = r, l, tr, tl
+                                exp = bool(py_cmp(tl, op, tr) or _kf_cmp(tl, op, tr))
+                                c = (base[0], base[1], base[2], base[3], ("filter", [("cmp", l, op, r)]))
+                                fcells.append((k, op, shape, flip, exp))
+                                docs.append(S.render(cell_scenario(c), random.Random(1), "id", False, False))
+                pool = _impl.Pool(ctx)
+                res = pool.validate_many(docs)
+                pool.close()
+                for c, d, r in zip(fcells, docs, res):
+                    if (r["outcome"] == "accept") != c[4] and found < 3:
+                        found += 1
+                        ctx.violation({"what": "pipeline typing: a filter clause is %s although the specification's comparison rules say otherwise" % ("accepted" if r["outcome"] == "accept" else "not accepted"),
+                                       "clause": {"item_attribute_type": S.FIELD_TYPES[c[0]], "operator": c[1], "literal_shape": c[2], "literal_on_the_left": c[3]},
+                                       "specification_accepts": c[4], "implementation": r, "document": d})
+            except BaseException as e:  # noqa
+                ctx.notes.append("filter cell search failed: %r" % (e,))
+        if not found:
             kernel.obligation_violation(ctx, thms, log)
     return items
 
